@@ -1,10 +1,12 @@
 (* C02 - Combined view loses and invents no text of either version (chunk-stream level).
-   [partial]: the grouping of changed tokens is proved to conserve every chunk and to keep groups
-   closed; the reconciliation of inserted and deleted structure is covered by the char-for-char
-   correspondence of the model with the implementation and by the document-level observer. *)
-From Coq Require Import List NArith Arith Bool String.
+   The combined stream is proved to be a sequence of whole items in which every group of the new
+   page (inserted or unchanged) and every deleted group appears exactly once, everything else being
+   tags - through the grouping, the splitting of unchanged runs and the reconciliation of inserted
+   and deleted structure, for all token lists and all opcode lists.  [partial] at document level:
+   the re-parse of the stream by the HTML parser is covered by the observer. *)
+From Coq Require Import List NArith Arith Bool String Permutation.
 From WMD Require Import Gen.Tables Lib.Str Lib.PyChars Lib.Escape Lib.Difflib Model.RenderTokens Model.RenderMerge
-     Proofs.DifflibProofs Proofs.MergeProofs Proofs.TokenProofs Proofs.AssembleProofs Proofs.RenderProofs.
+     Proofs.DifflibProofs Proofs.MergeProofs Proofs.TokenProofs Proofs.AssembleProofs Proofs.RenderProofs Proofs.ReconcileProofs Proofs.CombinedProofs.
 Import ListNotations.
 Open Scope N_scope.
 
@@ -51,6 +53,35 @@ Theorem C02_sides_conserve : forall new_side old new ops,
   chain ops 0 0 (List.length old) (List.length new) ->
   nb (srcs (view_l new_side old new ops)) = nb (expand_tokens false (if new_side then new else old)).
 Proof. exact single_sided_conserves. Qed.
+
+(* reconciliation conserves groups: whatever the interleaving of inserted and deleted structure and
+   whichever of its early exits is taken, its output is a sequence of whole items containing every
+   group of both sides exactly once *)
+Theorem C02_reconcile_conserves : forall igs dgs,
+  tags_ok igs -> tags_ok dgs -> Forall del_group (groups dgs) ->
+  (forall x y, In x (groups igs) -> In y (groups dgs) -> list_eqb x y = false) ->
+  exists out, reconcile_change_groups igs dgs = flat out /\
+              Permutation (groups out) (groups igs ++ groups dgs) /\ tags_ok out.
+Proof. exact reconcile_conserves. Qed.
+
+(* the whole combined stream: for all token lists and ALL opcode lists, every group of the new side
+   and every deleted group exactly once; the rest are tags (text lives only in groups) *)
+Theorem C02_combined_conserves : forall old new ops,
+  exists out, assemble_diff MCombined old new ops = flat out /\ tags_ok out /\
+              Permutation (groups out) (new_groups_of old new ops ++ del_groups_of old new ops).
+Proof. exact combined_conserves. Qed.
+
+(* the hypotheses of the reconciliation theorem are met by what the grouping produces *)
+Theorem C02_grouping_meets_hypotheses : forall chunks_i chunks_d,
+  let igs := merge_change_groups chunks_i (Some ins_t) in
+  let dgs := merge_change_groups chunks_d (Some del_t) in
+  tags_ok igs /\ tags_ok dgs /\ Forall del_group (groups dgs) /\
+  (forall x y, In x (groups igs) -> In y (groups dgs) -> list_eqb x y = false).
+Proof.
+  intros ci cd. cbv zeta. split; [apply mcg_tags|]. split; [apply mcg_tags|]. split.
+  - apply marked_groups_del, mcg_marked.
+  - apply marked_ins_ne_del; apply mcg_marked.
+Qed.
 
 Example C02_example :
   map (render_item (Some (s2l "ins"))) (merge_groups_l [s2l "Some"; s2l "<p>"; s2l "inserted"; s2l "</p>"; s2l "text"] None)
